@@ -30,6 +30,7 @@ mod cors;
 mod dirmount;
 mod openapi;
 mod schema;
+mod server;
 
 pub type RunFn = fn(&Value) -> Value;
 
@@ -52,6 +53,7 @@ fn subcommand(name: &str) -> Option<RunFn> {
         "dir" => dirmount::run,
         "openapi" => openapi::run,
         "schema" => schema::run,
+        "server" => server::run,
         _ => return None,
     })
 }
@@ -193,6 +195,7 @@ fn main() {
                 "decoders" => decoders::gen,
                 "openapi" => openapi::gen,
                 "schema" => schema::gen,
+                "server" => server::gen,
                 "sd" => sd::gen,
                 "fmt" => fmt::gen,
                 "cors" => cors::gen,
